@@ -126,6 +126,38 @@ theorem independent {E : List (List α)} {st : St α} {sp : SPool α} (R : Rel E
         injection a with e4
         exact e4.symm
 
+/-- **C03.2b** a copy sees the whole remaining sequence: after `copy()` the new Stream and the
+original both denote what the original denoted. -/
+theorem copy_whole {E : List (List α)} {st : St α} {sp : SPool α} (R : Rel E st sp) (i : Nat)
+    (it : It α) (hi : st.pool[i]? = some (.stream it)) :
+    ∃ E' st' a b, (∀ f, step f st (.copy i) = some (st', .new st.pool.length)) ∧
+      st'.pool[i]? = some (.stream a) ∧ st'.pool[st.pool.length]? = some (.stream b) ∧
+      den E' a = den E it ∧ den E' b = den E it := by
+  cases R.lookup i with
+  | missing hp hq => rw [hp] at hi; cases hi
+  | dead hp hq => rw [hp] at hi; cases hi
+  | hub us q hp hq ok => rw [hp] at hi; cases hi
+  | stream it0 hp hq ok =>
+    rw [hp] at hi; cases hi
+    obtain ⟨hok1, ext1, okt, dent⟩ := teeOf_ok R.hok ok
+    have hlt := getElem?_lt hp
+    refine ⟨E ++ [den E it], ⟨st.heap ++ [⟨it, []⟩], st.pool.set i (.stream (.tee st.heap.length 0)) ++
+        [.stream (.tee st.heap.length 0)]⟩, .tee st.heap.length 0, .tee st.heap.length 0,
+      fun f => by simp [step, hp, teeOf], ?_, ?_, dent, dent⟩
+    · simp [List.getElem?_append_left, hlt]
+    · simp [List.getElem?_append_right]
+
+/-- **C03.3c** every one of the `n` uses of a thub sees the whole sequence. -/
+theorem thub_whole {E : List (List α)} {st : St α} {sp : SPool α} (R : Rel E st sp) (xs : List α) (n : Nat) :
+    ∃ E' st' uses, (∀ f, step f st (.thub (.list xs) n) = some (st', .new st.pool.length)) ∧
+      st'.pool[st.pool.length]? = some (.hub uses) ∧ uses.length = n ∧ ∀ u, u ∈ uses → den E' u = xs := by
+  obtain ⟨hok1, ext1, okt, dent⟩ := teeOf_ok (it := .src xs) R.hok trivial
+  refine ⟨E ++ [xs], ⟨st.heap ++ [⟨.src xs, []⟩], st.pool ++ [.hub (List.replicate n (.tee st.heap.length 0))]⟩,
+    List.replicate n (.tee st.heap.length 0), fun f => by simp [step, mkSrc, teeOf], by simp, by simp,
+    fun u hu => ?_⟩
+  obtain ⟨_, rfl⟩ := List.mem_replicate.1 hu
+  exact dent
+
 /-- **C03.4c** `peek` removes nothing: no object — the peeked one included — changes its
 denotation (and the value returned is the one `take` would return, by `step_refines`). -/
 theorem peek_pure {E : List (List α)} {st : St α} {sp : SPool α} (R : Rel E st sp) (i : Nat) (c : Cnt) :
